@@ -641,7 +641,6 @@ func (p *c01prog) buildX(only map[int]bool, track bool, perturb func(id int, fla
 	return run
 }
 
-
 // contractionFloors: a backward rule may contract (MatMul, Dot, the averaging
 // of a broadcast gradient): its output can be a rounding residue of terms of
 // magnitude |consumer gradient| * |operand values|. That magnitude, per
